@@ -35,16 +35,21 @@ Section Wire.
   Variable err416_body : bytes.
   (** [true]: the repaired [send], which puts the page's [vary] header on the 416 page; [false]: as it was *)
   Variable fixed : bool.
+  (** [true]: the 416 page lists the rule headers of the URI the response was cached under — the internal URI of a Prime
+      extension, if any, which [handle_cache] leaves in the request's extensions ([extensions::InternalUri]) —, like the
+      response it replaces; [false]: as it was after 21f0154 and before this repair: those of the request's own path *)
+  Variable fix_ov : bool.
 
   (** 1xx, 204 and 304 responses end with the head: [send] drops their body first (repair 89e2956) *)
   Definition no_body_status (st : N) : bool := ((100 <=? st) && (st <=? 199)) || (st =? 204) || (st =? 304).
   Definition send_body (rp : reply) : bytes := if no_body_status (rp_status rp) then [] else rp_body rp.
 
-  (** [r]: the request as [send] sees it (after the Prime extensions); [san]: [sanitize_data]
+  (** [q]: the request as [send] sees it (after the Prime extensions) and the override URI; [san]: [sanitize_data]
       ([None] = [Err], [Some range] = [Ok]); [rp]: what [handle_cache] returned.
       A 304 Not Modified is not range-sliced (repair 9ae9b1a: [if let (Ok(data), false) = (&data, not_modified)]):
       it goes out as it is, whatever the [range] header says. *)
-  Definition send_v (r : request) (san : option (option (N * N))) (rp : reply) : outcome wreply :=
+  Definition send_v (q : routed) (san : option (option (N * N))) (rp : reply) : outcome wreply :=
+    let r := fst q in
     let not_modified := rp_status rp =? 304 in
     match (if not_modified then None else san) with
     | None => Ok (mkW (rp_status rp) (package r (rp_headers rp)) (send_body rp) (rp_last_modified rp))
@@ -59,7 +64,8 @@ Section Wire.
             Ok (mkW (r_status x) (package r hs2) (r_body x) (rp_last_modified rp))
         | Err _ =>
             let hs := if fixed
-                      then apply_header err416_headers err416_body (settings_headers (rules_of (rq_path r))) false
+                      then apply_header err416_headers err416_body
+                                        (settings_headers (rules_of (if fix_ov then cpath q else rq_path r))) false
                       else err416_headers in
             Ok (mkW 416 (package r hs) err416_body false)
         | Panic => Panic
@@ -86,22 +92,23 @@ Definition x_wreply (report : list bytes) (r : request) (w : wreply) (lg : list 
       report_headers report (mkReply (w_status w) (w_headers w) [] [] (w_last_modified w) false);
       XB (wire_body r w); XN 1; XL (map XB lg)].
 
-Fixpoint wire_ops (fixed : bool) (cfg : config) (st : vcache * list N) (now : N) (ops : list op) : outcome (list xval) :=
+Fixpoint wire_ops (fixed fix_ov : bool) (cfg : config) (routes : list route_t) (st : vcache * list N) (now : N) (ops : list op)
+  : outcome (list xval) :=
   match ops with
   | [] => Ok []
   | o :: rest =>
-      match stepV_fix cfg st now o with
+      match stepV_fix cfg routes st now o with
       | Ok (st', now', ob, _) =>
           let x := match o, ob with
                    | OReq r0, ObReply rp lg =>
-                       let r := prime_fix cfg r0 in
-                       match send_v (rules_fix (cf_vary cfg)) package_fix ERRPAGE fixed r (san_fix r0) rp with
-                       | Ok w => x_wreply (cf_report cfg) r w lg
+                       let q := prime_fix cfg routes r0 in
+                       match send_v (rules_fix (cf_vary cfg)) package_fix ERRPAGE fixed fix_ov q (san_fix r0) rp with
+                       | Ok w => x_wreply (cf_report cfg) (fst q) w lg
                        | _ => XL [XN 2]
                        end
                    | _, _ => x_obs (cf_report cfg) ob
                    end in
-          match wire_ops fixed cfg st' now' rest with
+          match wire_ops fixed fix_ov cfg routes st' now' rest with
           | Ok l => Ok (x :: l)
           | o' => o'
           end
@@ -110,13 +117,13 @@ Fixpoint wire_ops (fixed : bool) (cfg : config) (st : vcache * list N) (now : N)
       end
   end.
 
-Definition run_vary_wire_gen (fixed : bool) (x : xval) : xval :=
+Definition run_vary_wire_gen (fixed fix_ov : bool) (x : xval) : xval :=
   match x with
   | XL [c; XL ops] =>
       match d_config c, d_all d_op ops with
       | Some cfg, Some ops' =>
           if negb (rules_ok cfg) then XL [XN 2] else
-          match wire_ops fixed cfg ([], repeat 0 (length (cf_handlers cfg) + 8)) (cf_phase cfg) ops' with
+          match wire_ops fixed fix_ov cfg (d_routes c) ([], repeat 0 (length (cf_handlers cfg) + 8)) (cf_phase cfg) ops' with
           | Ok l => XL l
           | Err e => XL [XN 1; XN e]
           | Panic => XL [XN 2]
@@ -126,9 +133,12 @@ Definition run_vary_wire_gen (fixed : bool) (x : xval) : xval :=
   | _ => bad_input
   end.
 
-Definition run_vary_wire := run_vary_wire_gen true.
-(** the model of [send] before the repair: the 416 page carries no [vary] *)
-Definition run_vary_wire_v0 := run_vary_wire_gen false.
+Definition run_vary_wire := run_vary_wire_gen true true.
+(** the model of [send] before the repair 21f0154: the 416 page carries no [vary] *)
+Definition run_vary_wire_v0 := run_vary_wire_gen false false.
+(** the model of [send] after 21f0154 and before the repair of the 416 page of an internal route: the rule headers of the
+    request's own path *)
+Definition run_vary_wire_ov_v0 := run_vary_wire_gen true false.
 
 Definition varywire_table : list (bytes * (xval -> xval)) :=
-  [ (B "vary.wire", run_vary_wire); (B "vary.wire_v0", run_vary_wire_v0) ].
+  [ (B "vary.wire", run_vary_wire); (B "vary.wire_v0", run_vary_wire_v0); (B "vary.wire_ov_v0", run_vary_wire_ov_v0) ].
